@@ -464,6 +464,25 @@ func run(c *vf.Ctx, si int) {
 				c.Violation("chain-executed-unauthorised-tx/named-sender-previous-owner", scen+": block with a named-sender tx signed by the previous owner was accepted", caseDesc{scen, "named/block", nil})
 				return
 			}
+			// hand-over and use in ONE block of a malicious producer: [heir hands the name to thief][a tx from the
+			// name, signed by heir, with the nonce that is next for thief]. If the name is resolved to thief for
+			// the second tx while the signature is checked against heir, thief's account pays for and counts a
+			// transaction it never signed; the ledger below decides.
+			upd2 := rig.TxSpec{Type: types.TxType_GOVERNANCE, From: heir, To: []byte(types.AergoName), Nonce: stateNonce(heir) + 1, Amount: rig.Aergo,
+				Payload: rig.GovPayload("v1updateName", nm, thief.B58()), GasPrice: gp, ChainID: cid()}.Build()
+			thiefBefore := stateNonce(thief)
+			res := produceOn(c, w, nut, scen, "named-handover-and-use-in-one-block", upd2, named(heir, thiefBefore+1))
+			c.Count("named/handover-and-use-in-one-block/"+res, 1)
+			c.Eval(1)
+			if res == "accepted" {
+				b, _ := nut.Best()
+				owners[nm] = append(owners[nm], [2]interface{}{b.No, thief.Addr})
+				if stateNonce(thief) != thiefBefore {
+					c.Violation("chain-executed-unauthorised-tx/named-sender-handover-and-use-in-one-block", fmt.Sprintf("%s: block [name %s handed from a10 to a9][tx from the name signed by a10]: the nonce of a9, who signed nothing, went from %d to %d", scen, nm, thiefBefore, stateNonce(thief)), caseDesc{scen, "named/one-block", nil})
+					return
+				}
+			}
+			c.Nontrivial(scen + "|named|one-block-handover")
 		}
 	}
 	if !ledger(c, w, nut, scen, "named sender", owners) {
@@ -658,17 +677,21 @@ func evilBuilder(c *vf.Ctx, w *rig.World, nut *rig.Client, scen string) *rig.Cli
 }
 
 // produceOn lets a malicious producer build a block with the given candidate on nut's tip and delivers it to nut.
-func produceOn(c *vf.Ctx, w *rig.World, nut *rig.Client, scen, step string, tx *types.Tx) string {
+func produceOn(c *vf.Ctx, w *rig.World, nut *rig.Client, scen, step string, txs ...*types.Tx) string {
 	b := evilBuilder(c, w, nut, scen)
 	if b == nil {
 		return "harness"
 	}
 	defer b.Kill()
-	rsp, err := b.Produce(&rig.ProduceReq{Txs: [][]byte{rig.EncTx(tx)}, Connect: false, Confirms: -1, SignKey: 0})
+	var enc [][]byte
+	for _, tx := range txs {
+		enc = append(enc, rig.EncTx(tx))
+	}
+	rsp, err := b.Produce(&rig.ProduceReq{Txs: enc, Connect: false, Confirms: -1, SignKey: 0})
 	if err != nil || rsp.Panic != "" || rsp.GenErr != "" {
 		return "not-buildable"
 	}
-	if len(rsp.Included) == 0 {
+	if len(rsp.Included) < len(txs) {
 		c.Count("evil_not_executable_reason/"+reason(rsp.SkipErrs), 1)
 		return "not-executable" // the production path itself refused the tx: nothing to deliver
 	}
